@@ -18,6 +18,7 @@ import Driver.C18
 import Driver.C11
 import Driver.C20
 import Driver.C15
+import Driver.C19
 
 open Fontc Fontc.Driver
 
@@ -46,16 +47,18 @@ def handlers : List (String × Handler) :=
   |>.cons ("c09wit", C09.handleE2E)
   |>.cons ("c10", C10.handle)
   |>.cons ("c10e2e", C10.handleE2E)
+  |>.cons ("c10big", C10.handleBig)
   |>.cons ("c06", C06.handle) |>.cons ("c06glyphs", C06.handleGlyphs) |>.cons ("c06e2e", C06.handleE2E) |>.cons ("c06probe", C06.handleE2E)
-  |>.cons ("c12e2e", C12.handle) |>.cons ("c12dir", C12.handle)
+  |>.cons ("c12e2e", C12.handle) |>.cons ("c12dir", C12.handle) |>.cons ("c12", C12.handlePure)
   |>.cons ("c13lex", C13.handleLex)
   |>.cons ("c13inc", C13.handleInc)
   |>.cons ("c18", C18.handle) |>.cons ("c18e2e", C18.handleE2E)
   |>.cons ("c11", C11.handle)
   |>.cons ("c11x", C11.handle)
   |>.cons ("c11adv", C11.handle)
-  |>.cons ("c20plist", C20.handlePlist) |>.cons ("c20args", C20.handleArgs) |>.cons ("c20e2e", C20.handleE2E)
-  |>.cons ("c15graph", C15.handleGraph) |>.cons ("c15mut", C15.handleMut)
+  |>.cons ("c20plist", C20.handlePlist) |>.cons ("c20args", C20.handleArgs) |>.cons ("c20e2e", C20.handleE2E) |>.cons ("c20unicode", C20.handleUnicode)
+  |>.cons ("c15graph", C15.handleGraph) |>.cons ("c15mut", C15.handleMut) |>.cons ("c15corpus", C15.handleCorpus)
+  |>.cons ("c19e2e", C19.handle) |>.cons ("c19e2e_rel", C19.handle) |>.cons ("c19big", C19.handleBig) |>.cons ("c19big_rel", C19.handleBig)
 
 def processLine (line : String) : String :=
   match Sexp.parse line with
